@@ -99,6 +99,11 @@ def clear_source_cache():
     _FILE_AST.clear()
 
 
+class _SymGenSignal(Exception):
+    def __init__(self, gen):
+        self.gen = gen
+
+
 class InlineInstead(Exception):
     """Raised by Contract.apply_at_call *before any effect* when the contract cannot stand for this call."""
 
@@ -1132,7 +1137,10 @@ class Interp:
         return r if isinstance(r, PList) else PList(r)
 
     def e_GeneratorExp(self, e, fr):
-        r = self.comprehension(e, fr)
+        try:
+            r = self.comprehension(e, fr)
+        except _SymGenSignal as sg:
+            return sg.gen
         return r if isinstance(r, PList) else PList(r)
 
     def e_SetComp(self, e, fr):
@@ -1161,6 +1169,13 @@ class Interp:
             it = self.eval(g.iter, scope)
             seq = self.models.indexed(self, it, e)
             if seq.concrete_len is None:
+                if len(e.generators) == 1 and not g.ifs and not dict_ and isinstance(e, ast.GeneratorExp):
+                    # a generator expression over a sequence of unknown length: kept as "element at index i"
+                    # (only consumers with a pointwise contract -- min / max -- accept it)
+                    def at(i, seq=seq, g=g):
+                        self.assign(g.target, seq.get(self, i), scope)
+                        return self.eval(e.elt, scope)
+                    raise _SymGenSignal(self.models.SymGen(seq.length, at))
                 raise OutOfSubset('comprehension over symbolic-length sequence', e)
             for i in range(seq.concrete_len):
                 self.assign(g.target, seq.get(self, i), scope)
